@@ -554,6 +554,12 @@ func (c *SpecCtx) call(x *ast.CallExpr) SpecVal {
 		}
 		n := c.inState(c.old)
 		return n.tr(x.Args[0])
+	case "atlock":
+		if c.ft.afterLock == nil {
+			c.fail("atlock(): no lock acquired before this point")
+		}
+		n := c.inState(c.ft.afterLock)
+		return n.tr(x.Args[0])
 	case "pre":
 		if c.pre == nil {
 			c.fail("pre() only inside loop invariants")
@@ -805,6 +811,14 @@ func (c *SpecCtx) specCall(sf *SpecFunc, args []SpecVal) SpecVal {
 			c.fail("spec function %s arg %d: sort %s, want %s", sf.Name, i, args[i].Sort, ft.d.sortOf(ptypes[i]))
 		}
 	}
+	if sf.Ghost {
+		key, _ := ft.ghostKey(sf, ptypes, rtype)
+		var ts []Term
+		for i := range args {
+			ts = append(ts, args[i].T)
+		}
+		return SpecVal{T: sel(ft.get(c.st, key), ts...), Typ: rtype, Sort: ft.d.sortOf(rtype)}
+	}
 	if sf.Body == nil || sf.Rec {
 		// uninterpreted (or recursive: uninterpreted + unfolding axiom)
 		var sorts []Sort
@@ -948,4 +962,40 @@ func (ft *FT) functionalUFs(fname string, argSorts []Sort, elem types.Type) (len
 		ft.d.fun(rn, argSorts, arraySort("Int", ft.d.sortOf(elem)))
 	}
 	return q(ln), q(rn)
+}
+
+// ghostKey declares the heap key of a ghost heap function.
+func (ft *FT) ghostKey(sf *SpecFunc, ptypes []types.Type, rtype types.Type) (string, Sort) {
+	key := "G!" + sf.Name
+	srt := ft.d.sortOf(rtype)
+	for i := len(ptypes) - 1; i >= 0; i-- {
+		srt = arraySort(ft.d.sortOf(ptypes[i]), srt)
+	}
+	ft.keySort(key, srt)
+	return key, srt
+}
+
+// ghostByName resolves a ghost heap declared in the contract files.
+func (c *SpecCtx) ghostByName(name string) (*SpecFunc, []types.Type, types.Type) {
+	var sf *SpecFunc
+	if c.pkg != nil {
+		sf = c.ft.eng.cons.Specs[c.pkg.Name()+"."+name]
+	}
+	if sf == nil {
+		sf = c.ft.eng.cons.Specs[name]
+	}
+	if sf == nil || !sf.Ghost {
+		return nil, nil, nil
+	}
+	sc := *c
+	sc.pkg = c.specPkg(sf)
+	var ptypes []types.Type
+	for i := range sf.PNames {
+		ptypes = append(ptypes, sc.resolveType(sf.PTypes[i]))
+	}
+	var rtype types.Type = boolType
+	if sf.Result != nil {
+		rtype = sc.resolveType(sf.Result)
+	}
+	return sf, ptypes, rtype
 }
